@@ -1,0 +1,1289 @@
+	.file	"test_printf.c"
+	.text
+.Ltext0:
+	.file 0 "/repo/aldor/aldor/src" "test/test_printf.c"
+	.section	.rodata
+.LC0:
+	.string	"testPrintf1"
+.LC1:
+	.string	"testPrintf2"
+	.text
+	.globl	printfTest
+	.type	printfTest, @function
+printfTest:
+.LFB0:
+	.file 1 "test/test_printf.c"
+	.loc 1 10 1
+	.cfi_startproc
+	pushq	%rbp
+	.cfi_def_cfa_offset 16
+	.cfi_offset 6, -16
+	movq	%rsp, %rbp
+	.cfi_def_cfa_register 6
+	.loc 1 11 2
+	leaq	testPrintf1(%rip), %rax
+	movq	%rax, %rsi
+	leaq	.LC0(%rip), %rax
+	movq	%rax, %rdi
+	call	showTest@PLT
+	.loc 1 12 2
+	leaq	testPrintf2(%rip), %rax
+	movq	%rax, %rsi
+	leaq	.LC1(%rip), %rax
+	movq	%rax, %rdi
+	call	showTest@PLT
+	.loc 1 13 1
+	nop
+	popq	%rbp
+	.cfi_def_cfa 7, 8
+	ret
+	.cfi_endproc
+.LFE0:
+	.size	printfTest, .-printfTest
+	.globl	arr
+	.bss
+	.align 32
+	.type	arr, @object
+	.size	arr, 100
+arr:
+	.zero	100
+	.globl	arrptr
+	.section	.data.rel.local,"aw"
+	.align 8
+	.type	arrptr, @object
+	.size	arrptr, 8
+arrptr:
+	.quad	arr
+	.text
+	.type	arrWrite, @function
+arrWrite:
+.LFB1:
+	.loc 1 20 1
+	.cfi_startproc
+	pushq	%rbp
+	.cfi_def_cfa_offset 16
+	.cfi_offset 6, -16
+	movq	%rsp, %rbp
+	.cfi_def_cfa_register 6
+	subq	$32, %rsp
+	movq	%rdi, -24(%rbp)
+	movl	%esi, -28(%rbp)
+	.loc 1 21 5
+	cmpl	$-1, -28(%rbp)
+	jne	.L3
+.LBB2:
+	.loc 1 22 14
+	movq	arrptr(%rip), %rax
+	movq	-24(%rbp), %rdx
+	movq	%rdx, %rsi
+	movq	%rax, %rdi
+	call	strcpy@PLT
+	movq	%rax, -8(%rbp)
+	.loc 1 23 11
+	movq	-24(%rbp), %rax
+	movq	%rax, %rdi
+	call	strlen@PLT
+	.loc 1 23 7
+	movl	%eax, -12(%rbp)
+	.loc 1 25 10
+	movq	arrptr(%rip), %rdx
+	movl	-12(%rbp), %eax
+	cltq
+	addq	%rdx, %rax
+	movq	%rax, arrptr(%rip)
+	.loc 1 26 10
+	movl	-12(%rbp), %eax
+	jmp	.L4
+.L3:
+.LBE2:
+	.loc 1 29 3
+	movl	-28(%rbp), %eax
+	movslq	%eax, %rdx
+	movq	arrptr(%rip), %rax
+	movq	-24(%rbp), %rcx
+	movq	%rcx, %rsi
+	movq	%rax, %rdi
+	call	strncpy@PLT
+	.loc 1 30 10
+	movq	arrptr(%rip), %rdx
+	movl	-28(%rbp), %eax
+	cltq
+	addq	%rdx, %rax
+	movq	%rax, arrptr(%rip)
+	.loc 1 31 10
+	movl	-28(%rbp), %eax
+.L4:
+	.loc 1 33 1
+	leave
+	.cfi_def_cfa 7, 8
+	ret
+	.cfi_endproc
+.LFE1:
+	.size	arrWrite, .-arrWrite
+	.section	.rodata
+.LC2:
+	.string	"foo: %s"
+.LC3:
+	.string	"bar"
+.LC4:
+	.string	"content"
+.LC5:
+	.string	"retval"
+	.text
+	.type	testPrintf1, @function
+testPrintf1:
+.LFB2:
+	.loc 1 38 1
+	.cfi_startproc
+	pushq	%rbp
+	.cfi_def_cfa_offset 16
+	.cfi_offset 6, -16
+	movq	%rsp, %rbp
+	.cfi_def_cfa_register 6
+	addq	$-128, %rsp
+	.loc 1 40 9
+	leaq	.LC2(%rip), %rax
+	movq	%rax, -8(%rbp)
+	.loc 1 41 9
+	leaq	.LC3(%rip), %rax
+	movq	%rax, -16(%rbp)
+	.loc 1 43 2
+	movl	$100, %edx
+	movl	$88, %esi
+	leaq	arr(%rip), %rax
+	movq	%rax, %rdi
+	call	memset@PLT
+	.loc 1 44 2
+	movq	-16(%rbp), %rdx
+	movq	-8(%rbp), %rcx
+	leaq	-128(%rbp), %rax
+	movq	%rcx, %rsi
+	movq	%rax, %rdi
+	movl	$0, %eax
+	call	sprintf@PLT
+	.loc 1 45 7
+	movq	-16(%rbp), %rdx
+	movq	-8(%rbp), %rax
+	movq	%rax, %rsi
+	leaq	arrWrite(%rip), %rax
+	movq	%rax, %rdi
+	movl	$0, %eax
+	call	xprintf@PLT
+	movl	%eax, -20(%rbp)
+	.loc 1 47 2
+	leaq	-128(%rbp), %rax
+	leaq	arr(%rip), %rdx
+	movq	%rax, %rsi
+	leaq	.LC4(%rip), %rax
+	movq	%rax, %rdi
+	call	testStringEqual@PLT
+	.loc 1 48 29
+	leaq	arr(%rip), %rax
+	movq	%rax, %rdi
+	call	strlen@PLT
+	.loc 1 48 2
+	movl	%eax, %edx
+	movl	-20(%rbp), %eax
+	movl	%eax, %esi
+	leaq	.LC5(%rip), %rax
+	movq	%rax, %rdi
+	call	testIntEqual@PLT
+	.loc 1 49 1
+	nop
+	leave
+	.cfi_def_cfa 7, 8
+	ret
+	.cfi_endproc
+.LFE2:
+	.size	testPrintf1, .-testPrintf1
+	.section	.rodata
+.LC6:
+	.string	""
+.LC7:
+	.string	"x"
+.LC8:
+	.string	"xy"
+	.text
+	.type	testPrintf2, @function
+testPrintf2:
+.LFB3:
+	.loc 1 54 1
+	.cfi_startproc
+	pushq	%rbp
+	.cfi_def_cfa_offset 16
+	.cfi_offset 6, -16
+	movq	%rsp, %rbp
+	.cfi_def_cfa_register 6
+	.loc 1 55 2
+	leaq	.LC6(%rip), %rax
+	movq	%rax, %rsi
+	movl	$0, %edi
+	call	checkPrintfCase
+	.loc 1 56 2
+	leaq	.LC6(%rip), %rax
+	movq	%rax, %rsi
+	movl	$1, %edi
+	call	checkPrintfCase
+	.loc 1 57 2
+	leaq	.LC6(%rip), %rax
+	movq	%rax, %rsi
+	movl	$2, %edi
+	call	checkPrintfCase
+	.loc 1 58 2
+	leaq	.LC7(%rip), %rax
+	movq	%rax, %rsi
+	movl	$0, %edi
+	call	checkPrintfCase
+	.loc 1 59 2
+	leaq	.LC7(%rip), %rax
+	movq	%rax, %rsi
+	movl	$1, %edi
+	call	checkPrintfCase
+	.loc 1 60 2
+	leaq	.LC7(%rip), %rax
+	movq	%rax, %rsi
+	movl	$2, %edi
+	call	checkPrintfCase
+	.loc 1 61 2
+	leaq	.LC8(%rip), %rax
+	movq	%rax, %rsi
+	movl	$1, %edi
+	call	checkPrintfCase
+	.loc 1 62 2
+	leaq	.LC8(%rip), %rax
+	movq	%rax, %rsi
+	movl	$5, %edi
+	call	checkPrintfCase
+	.loc 1 64 1
+	nop
+	popq	%rbp
+	.cfi_def_cfa 7, 8
+	ret
+	.cfi_endproc
+.LFE3:
+	.size	testPrintf2, .-testPrintf2
+	.section	.rodata
+.LC9:
+	.string	"%d-[%s]"
+.LC10:
+	.string	"%*s"
+	.text
+	.type	checkPrintfCase, @function
+checkPrintfCase:
+.LFB4:
+	.loc 1 68 1
+	.cfi_startproc
+	pushq	%rbp
+	.cfi_def_cfa_offset 16
+	.cfi_offset 6, -16
+	movq	%rsp, %rbp
+	.cfi_def_cfa_register 6
+	subq	$64, %rsp
+	movl	%edi, -52(%rbp)
+	movq	%rsi, -64(%rbp)
+	.loc 1 69 16
+	movq	-64(%rbp), %rdx
+	movl	-52(%rbp), %eax
+	movl	%eax, %esi
+	leaq	.LC9(%rip), %rax
+	movq	%rax, %rdi
+	movl	$0, %eax
+	call	strPrintf@PLT
+	movq	%rax, -8(%rbp)
+	.loc 1 72 2
+	movq	-64(%rbp), %rcx
+	movl	-52(%rbp), %edx
+	leaq	-48(%rbp), %rax
+	leaq	.LC10(%rip), %rsi
+	movq	%rax, %rdi
+	movl	$0, %eax
+	call	sprintf@PLT
+	.loc 1 73 7
+	movq	-64(%rbp), %rdx
+	movl	-52(%rbp), %eax
+	movl	%eax, %esi
+	leaq	.LC10(%rip), %rax
+	movq	%rax, %rdi
+	movl	$0, %eax
+	call	strPrintf@PLT
+	movq	%rax, -16(%rbp)
+	.loc 1 75 2
+	movq	-16(%rbp), %rdx
+	leaq	-48(%rbp), %rcx
+	movq	-8(%rbp), %rax
+	movq	%rcx, %rsi
+	movq	%rax, %rdi
+	call	testStringEqual@PLT
+	.loc 1 76 2
+	movq	-8(%rbp), %rax
+	movq	%rax, %rdi
+	call	strFree@PLT
+	.loc 1 77 1
+	nop
+	leave
+	.cfi_def_cfa 7, 8
+	ret
+	.cfi_endproc
+.LFE4:
+	.size	checkPrintfCase, .-checkPrintfCase
+.Letext0:
+	.file 2 "/usr/lib/gcc/x86_64-linux-gnu/12/include/stddef.h"
+	.file 3 "./cport.h"
+	.file 4 "./format.h"
+	.file 5 "./strops.h"
+	.file 6 "test/testlib.h"
+	.file 7 "./stdio.h0"
+	.file 8 "/usr/include/string.h"
+	.section	.debug_info,"",@progbits
+.Ldebug_info0:
+	.long	0x396
+	.value	0x5
+	.byte	0x1
+	.byte	0x8
+	.long	.Ldebug_abbrev0
+	.uleb128 0xd
+	.long	.LASF31
+	.byte	0xc
+	.long	.LASF0
+	.long	.LASF1
+	.quad	.Ltext0
+	.quad	.Letext0-.Ltext0
+	.long	.Ldebug_line0
+	.uleb128 0xe
+	.byte	0x4
+	.byte	0x5
+	.string	"int"
+	.uleb128 0x2
+	.byte	0x1
+	.byte	0x8
+	.long	.LASF2
+	.uleb128 0x2
+	.byte	0x2
+	.byte	0x7
+	.long	.LASF3
+	.uleb128 0x2
+	.byte	0x4
+	.byte	0x7
+	.long	.LASF4
+	.uleb128 0x2
+	.byte	0x8
+	.byte	0x7
+	.long	.LASF5
+	.uleb128 0x2
+	.byte	0x1
+	.byte	0x6
+	.long	.LASF6
+	.uleb128 0x2
+	.byte	0x2
+	.byte	0x5
+	.long	.LASF7
+	.uleb128 0x2
+	.byte	0x8
+	.byte	0x5
+	.long	.LASF8
+	.uleb128 0xf
+	.byte	0x8
+	.uleb128 0x5
+	.long	0x6d
+	.uleb128 0x2
+	.byte	0x1
+	.byte	0x6
+	.long	.LASF9
+	.uleb128 0x10
+	.long	0x6d
+	.uleb128 0x2
+	.byte	0x4
+	.byte	0x4
+	.long	.LASF10
+	.uleb128 0x2
+	.byte	0x8
+	.byte	0x4
+	.long	.LASF11
+	.uleb128 0xa
+	.long	.LASF13
+	.byte	0x2
+	.byte	0xd6
+	.byte	0x1b
+	.long	0x4a
+	.uleb128 0xb
+	.long	0x6d
+	.long	0xa3
+	.uleb128 0xc
+	.long	0x4a
+	.byte	0x13
+	.byte	0
+	.uleb128 0x2
+	.byte	0x8
+	.byte	0x5
+	.long	.LASF12
+	.uleb128 0x5
+	.long	0x74
+	.uleb128 0x11
+	.long	.LASF14
+	.byte	0x3
+	.value	0x16a
+	.byte	0xf
+	.long	0x68
+	.uleb128 0xa
+	.long	.LASF15
+	.byte	0x4
+	.byte	0x19
+	.byte	0xf
+	.long	0xc8
+	.uleb128 0x5
+	.long	0xcd
+	.uleb128 0x12
+	.long	0x2e
+	.long	0xe1
+	.uleb128 0x1
+	.long	0xaa
+	.uleb128 0x1
+	.long	0x2e
+	.byte	0
+	.uleb128 0xb
+	.long	0x6d
+	.long	0xf1
+	.uleb128 0xc
+	.long	0x4a
+	.byte	0x63
+	.byte	0
+	.uleb128 0x13
+	.string	"arr"
+	.byte	0x1
+	.byte	0xf
+	.byte	0x6
+	.long	0xe1
+	.uleb128 0x9
+	.byte	0x3
+	.quad	arr
+	.uleb128 0x14
+	.long	.LASF16
+	.byte	0x1
+	.byte	0x10
+	.byte	0x7
+	.long	0x68
+	.uleb128 0x9
+	.byte	0x3
+	.quad	arrptr
+	.uleb128 0x6
+	.long	.LASF17
+	.byte	0x5
+	.byte	0x37
+	.byte	0xd
+	.long	0x12f
+	.uleb128 0x1
+	.long	0xaf
+	.byte	0
+	.uleb128 0x3
+	.long	.LASF20
+	.byte	0x5
+	.byte	0x31
+	.byte	0xf
+	.long	0xaf
+	.long	0x146
+	.uleb128 0x1
+	.long	0xaa
+	.uleb128 0x8
+	.byte	0
+	.uleb128 0x6
+	.long	.LASF18
+	.byte	0x6
+	.byte	0x8
+	.byte	0x6
+	.long	0x162
+	.uleb128 0x1
+	.long	0xaf
+	.uleb128 0x1
+	.long	0x2e
+	.uleb128 0x1
+	.long	0x2e
+	.byte	0
+	.uleb128 0x6
+	.long	.LASF19
+	.byte	0x6
+	.byte	0x6
+	.byte	0x6
+	.long	0x17e
+	.uleb128 0x1
+	.long	0xaf
+	.uleb128 0x1
+	.long	0xaf
+	.uleb128 0x1
+	.long	0xaf
+	.byte	0
+	.uleb128 0x3
+	.long	.LASF21
+	.byte	0x4
+	.byte	0x1b
+	.byte	0xc
+	.long	0x2e
+	.long	0x19a
+	.uleb128 0x1
+	.long	0xbc
+	.uleb128 0x1
+	.long	0xaa
+	.uleb128 0x8
+	.byte	0
+	.uleb128 0x3
+	.long	.LASF22
+	.byte	0x7
+	.byte	0x37
+	.byte	0xe
+	.long	0x2e
+	.long	0x1b6
+	.uleb128 0x1
+	.long	0x68
+	.uleb128 0x1
+	.long	0xaa
+	.uleb128 0x8
+	.byte	0
+	.uleb128 0x3
+	.long	.LASF23
+	.byte	0x8
+	.byte	0x3d
+	.byte	0xe
+	.long	0x66
+	.long	0x1d6
+	.uleb128 0x1
+	.long	0x66
+	.uleb128 0x1
+	.long	0x2e
+	.uleb128 0x1
+	.long	0x87
+	.byte	0
+	.uleb128 0x3
+	.long	.LASF24
+	.byte	0x8
+	.byte	0x90
+	.byte	0xe
+	.long	0x68
+	.long	0x1f6
+	.uleb128 0x1
+	.long	0x68
+	.uleb128 0x1
+	.long	0xaa
+	.uleb128 0x1
+	.long	0x87
+	.byte	0
+	.uleb128 0x15
+	.long	.LASF25
+	.byte	0x8
+	.value	0x197
+	.byte	0xf
+	.long	0x87
+	.long	0x20d
+	.uleb128 0x1
+	.long	0xaa
+	.byte	0
+	.uleb128 0x3
+	.long	.LASF26
+	.byte	0x8
+	.byte	0x8d
+	.byte	0xe
+	.long	0x68
+	.long	0x228
+	.uleb128 0x1
+	.long	0x68
+	.uleb128 0x1
+	.long	0xaa
+	.byte	0
+	.uleb128 0x6
+	.long	.LASF27
+	.byte	0x6
+	.byte	0x15
+	.byte	0x6
+	.long	0x23f
+	.uleb128 0x1
+	.long	0x68
+	.uleb128 0x1
+	.long	0x23f
+	.byte	0
+	.uleb128 0x5
+	.long	0x244
+	.uleb128 0x16
+	.uleb128 0x17
+	.long	.LASF32
+	.byte	0x1
+	.byte	0x43
+	.byte	0x1
+	.quad	.LFB4
+	.quad	.LFE4-.LFB4
+	.uleb128 0x1
+	.byte	0x9c
+	.long	0x2a9
+	.uleb128 0x7
+	.string	"w"
+	.byte	0x43
+	.byte	0x15
+	.long	0x2e
+	.uleb128 0x3
+	.byte	0x91
+	.sleb128 -68
+	.uleb128 0x7
+	.string	"txt"
+	.byte	0x43
+	.byte	0x24
+	.long	0xaa
+	.uleb128 0x3
+	.byte	0x91
+	.sleb128 -80
+	.uleb128 0x9
+	.long	.LASF28
+	.byte	0x45
+	.byte	0x9
+	.long	0xaf
+	.uleb128 0x2
+	.byte	0x91
+	.sleb128 -24
+	.uleb128 0x4
+	.string	"s2"
+	.byte	0x46
+	.byte	0x9
+	.long	0xaf
+	.uleb128 0x2
+	.byte	0x91
+	.sleb128 -32
+	.uleb128 0x4
+	.string	"buf"
+	.byte	0x47
+	.byte	0x7
+	.long	0x93
+	.uleb128 0x2
+	.byte	0x91
+	.sleb128 -64
+	.byte	0
+	.uleb128 0x18
+	.long	.LASF33
+	.byte	0x1
+	.byte	0x35
+	.byte	0x1
+	.quad	.LFB3
+	.quad	.LFE3-.LFB3
+	.uleb128 0x1
+	.byte	0x9c
+	.uleb128 0x19
+	.long	.LASF34
+	.byte	0x1
+	.byte	0x25
+	.byte	0x1
+	.quad	.LFB2
+	.quad	.LFE2-.LFB2
+	.uleb128 0x1
+	.byte	0x9c
+	.long	0x31a
+	.uleb128 0x4
+	.string	"cc"
+	.byte	0x27
+	.byte	0x6
+	.long	0x2e
+	.uleb128 0x2
+	.byte	0x91
+	.sleb128 -36
+	.uleb128 0x4
+	.string	"fmt"
+	.byte	0x28
+	.byte	0x9
+	.long	0xaf
+	.uleb128 0x2
+	.byte	0x91
+	.sleb128 -24
+	.uleb128 0x9
+	.long	.LASF29
+	.byte	0x29
+	.byte	0x9
+	.long	0xaf
+	.uleb128 0x2
+	.byte	0x91
+	.sleb128 -32
+	.uleb128 0x9
+	.long	.LASF30
+	.byte	0x2a
+	.byte	0x7
+	.long	0xe1
+	.uleb128 0x3
+	.byte	0x91
+	.sleb128 -144
+	.byte	0
+	.uleb128 0x1a
+	.long	.LASF35
+	.byte	0x1
+	.byte	0x13
+	.byte	0x1
+	.long	0x2e
+	.quad	.LFB1
+	.quad	.LFE1-.LFB1
+	.uleb128 0x1
+	.byte	0x9c
+	.long	0x37f
+	.uleb128 0x7
+	.string	"s"
+	.byte	0x13
+	.byte	0x16
+	.long	0xaa
+	.uleb128 0x2
+	.byte	0x91
+	.sleb128 -40
+	.uleb128 0x7
+	.string	"n"
+	.byte	0x13
+	.byte	0x1d
+	.long	0x2e
+	.uleb128 0x2
+	.byte	0x91
+	.sleb128 -44
+	.uleb128 0x1b
+	.quad	.LBB2
+	.quad	.LBE2-.LBB2
+	.uleb128 0x4
+	.string	"r"
+	.byte	0x16
+	.byte	0xa
+	.long	0x68
+	.uleb128 0x2
+	.byte	0x91
+	.sleb128 -24
+	.uleb128 0x4
+	.string	"c"
+	.byte	0x17
+	.byte	0x7
+	.long	0x2e
+	.uleb128 0x2
+	.byte	0x91
+	.sleb128 -28
+	.byte	0
+	.byte	0
+	.uleb128 0x1c
+	.long	.LASF36
+	.byte	0x1
+	.byte	0x9
+	.byte	0x6
+	.quad	.LFB0
+	.quad	.LFE0-.LFB0
+	.uleb128 0x1
+	.byte	0x9c
+	.byte	0
+	.section	.debug_abbrev,"",@progbits
+.Ldebug_abbrev0:
+	.uleb128 0x1
+	.uleb128 0x5
+	.byte	0
+	.uleb128 0x49
+	.uleb128 0x13
+	.byte	0
+	.byte	0
+	.uleb128 0x2
+	.uleb128 0x24
+	.byte	0
+	.uleb128 0xb
+	.uleb128 0xb
+	.uleb128 0x3e
+	.uleb128 0xb
+	.uleb128 0x3
+	.uleb128 0xe
+	.byte	0
+	.byte	0
+	.uleb128 0x3
+	.uleb128 0x2e
+	.byte	0x1
+	.uleb128 0x3f
+	.uleb128 0x19
+	.uleb128 0x3
+	.uleb128 0xe
+	.uleb128 0x3a
+	.uleb128 0xb
+	.uleb128 0x3b
+	.uleb128 0xb
+	.uleb128 0x39
+	.uleb128 0xb
+	.uleb128 0x27
+	.uleb128 0x19
+	.uleb128 0x49
+	.uleb128 0x13
+	.uleb128 0x3c
+	.uleb128 0x19
+	.uleb128 0x1
+	.uleb128 0x13
+	.byte	0
+	.byte	0
+	.uleb128 0x4
+	.uleb128 0x34
+	.byte	0
+	.uleb128 0x3
+	.uleb128 0x8
+	.uleb128 0x3a
+	.uleb128 0x21
+	.sleb128 1
+	.uleb128 0x3b
+	.uleb128 0xb
+	.uleb128 0x39
+	.uleb128 0xb
+	.uleb128 0x49
+	.uleb128 0x13
+	.uleb128 0x2
+	.uleb128 0x18
+	.byte	0
+	.byte	0
+	.uleb128 0x5
+	.uleb128 0xf
+	.byte	0
+	.uleb128 0xb
+	.uleb128 0x21
+	.sleb128 8
+	.uleb128 0x49
+	.uleb128 0x13
+	.byte	0
+	.byte	0
+	.uleb128 0x6
+	.uleb128 0x2e
+	.byte	0x1
+	.uleb128 0x3f
+	.uleb128 0x19
+	.uleb128 0x3
+	.uleb128 0xe
+	.uleb128 0x3a
+	.uleb128 0xb
+	.uleb128 0x3b
+	.uleb128 0xb
+	.uleb128 0x39
+	.uleb128 0xb
+	.uleb128 0x27
+	.uleb128 0x19
+	.uleb128 0x3c
+	.uleb128 0x19
+	.uleb128 0x1
+	.uleb128 0x13
+	.byte	0
+	.byte	0
+	.uleb128 0x7
+	.uleb128 0x5
+	.byte	0
+	.uleb128 0x3
+	.uleb128 0x8
+	.uleb128 0x3a
+	.uleb128 0x21
+	.sleb128 1
+	.uleb128 0x3b
+	.uleb128 0xb
+	.uleb128 0x39
+	.uleb128 0xb
+	.uleb128 0x49
+	.uleb128 0x13
+	.uleb128 0x2
+	.uleb128 0x18
+	.byte	0
+	.byte	0
+	.uleb128 0x8
+	.uleb128 0x18
+	.byte	0
+	.byte	0
+	.byte	0
+	.uleb128 0x9
+	.uleb128 0x34
+	.byte	0
+	.uleb128 0x3
+	.uleb128 0xe
+	.uleb128 0x3a
+	.uleb128 0x21
+	.sleb128 1
+	.uleb128 0x3b
+	.uleb128 0xb
+	.uleb128 0x39
+	.uleb128 0xb
+	.uleb128 0x49
+	.uleb128 0x13
+	.uleb128 0x2
+	.uleb128 0x18
+	.byte	0
+	.byte	0
+	.uleb128 0xa
+	.uleb128 0x16
+	.byte	0
+	.uleb128 0x3
+	.uleb128 0xe
+	.uleb128 0x3a
+	.uleb128 0xb
+	.uleb128 0x3b
+	.uleb128 0xb
+	.uleb128 0x39
+	.uleb128 0xb
+	.uleb128 0x49
+	.uleb128 0x13
+	.byte	0
+	.byte	0
+	.uleb128 0xb
+	.uleb128 0x1
+	.byte	0x1
+	.uleb128 0x49
+	.uleb128 0x13
+	.uleb128 0x1
+	.uleb128 0x13
+	.byte	0
+	.byte	0
+	.uleb128 0xc
+	.uleb128 0x21
+	.byte	0
+	.uleb128 0x49
+	.uleb128 0x13
+	.uleb128 0x2f
+	.uleb128 0xb
+	.byte	0
+	.byte	0
+	.uleb128 0xd
+	.uleb128 0x11
+	.byte	0x1
+	.uleb128 0x25
+	.uleb128 0xe
+	.uleb128 0x13
+	.uleb128 0xb
+	.uleb128 0x3
+	.uleb128 0x1f
+	.uleb128 0x1b
+	.uleb128 0x1f
+	.uleb128 0x11
+	.uleb128 0x1
+	.uleb128 0x12
+	.uleb128 0x7
+	.uleb128 0x10
+	.uleb128 0x17
+	.byte	0
+	.byte	0
+	.uleb128 0xe
+	.uleb128 0x24
+	.byte	0
+	.uleb128 0xb
+	.uleb128 0xb
+	.uleb128 0x3e
+	.uleb128 0xb
+	.uleb128 0x3
+	.uleb128 0x8
+	.byte	0
+	.byte	0
+	.uleb128 0xf
+	.uleb128 0xf
+	.byte	0
+	.uleb128 0xb
+	.uleb128 0xb
+	.byte	0
+	.byte	0
+	.uleb128 0x10
+	.uleb128 0x26
+	.byte	0
+	.uleb128 0x49
+	.uleb128 0x13
+	.byte	0
+	.byte	0
+	.uleb128 0x11
+	.uleb128 0x16
+	.byte	0
+	.uleb128 0x3
+	.uleb128 0xe
+	.uleb128 0x3a
+	.uleb128 0xb
+	.uleb128 0x3b
+	.uleb128 0x5
+	.uleb128 0x39
+	.uleb128 0xb
+	.uleb128 0x49
+	.uleb128 0x13
+	.byte	0
+	.byte	0
+	.uleb128 0x12
+	.uleb128 0x15
+	.byte	0x1
+	.uleb128 0x27
+	.uleb128 0x19
+	.uleb128 0x49
+	.uleb128 0x13
+	.uleb128 0x1
+	.uleb128 0x13
+	.byte	0
+	.byte	0
+	.uleb128 0x13
+	.uleb128 0x34
+	.byte	0
+	.uleb128 0x3
+	.uleb128 0x8
+	.uleb128 0x3a
+	.uleb128 0xb
+	.uleb128 0x3b
+	.uleb128 0xb
+	.uleb128 0x39
+	.uleb128 0xb
+	.uleb128 0x49
+	.uleb128 0x13
+	.uleb128 0x3f
+	.uleb128 0x19
+	.uleb128 0x2
+	.uleb128 0x18
+	.byte	0
+	.byte	0
+	.uleb128 0x14
+	.uleb128 0x34
+	.byte	0
+	.uleb128 0x3
+	.uleb128 0xe
+	.uleb128 0x3a
+	.uleb128 0xb
+	.uleb128 0x3b
+	.uleb128 0xb
+	.uleb128 0x39
+	.uleb128 0xb
+	.uleb128 0x49
+	.uleb128 0x13
+	.uleb128 0x3f
+	.uleb128 0x19
+	.uleb128 0x2
+	.uleb128 0x18
+	.byte	0
+	.byte	0
+	.uleb128 0x15
+	.uleb128 0x2e
+	.byte	0x1
+	.uleb128 0x3f
+	.uleb128 0x19
+	.uleb128 0x3
+	.uleb128 0xe
+	.uleb128 0x3a
+	.uleb128 0xb
+	.uleb128 0x3b
+	.uleb128 0x5
+	.uleb128 0x39
+	.uleb128 0xb
+	.uleb128 0x27
+	.uleb128 0x19
+	.uleb128 0x49
+	.uleb128 0x13
+	.uleb128 0x3c
+	.uleb128 0x19
+	.uleb128 0x1
+	.uleb128 0x13
+	.byte	0
+	.byte	0
+	.uleb128 0x16
+	.uleb128 0x15
+	.byte	0
+	.uleb128 0x27
+	.uleb128 0x19
+	.byte	0
+	.byte	0
+	.uleb128 0x17
+	.uleb128 0x2e
+	.byte	0x1
+	.uleb128 0x3
+	.uleb128 0xe
+	.uleb128 0x3a
+	.uleb128 0xb
+	.uleb128 0x3b
+	.uleb128 0xb
+	.uleb128 0x39
+	.uleb128 0xb
+	.uleb128 0x27
+	.uleb128 0x19
+	.uleb128 0x11
+	.uleb128 0x1
+	.uleb128 0x12
+	.uleb128 0x7
+	.uleb128 0x40
+	.uleb128 0x18
+	.uleb128 0x7c
+	.uleb128 0x19
+	.uleb128 0x1
+	.uleb128 0x13
+	.byte	0
+	.byte	0
+	.uleb128 0x18
+	.uleb128 0x2e
+	.byte	0
+	.uleb128 0x3
+	.uleb128 0xe
+	.uleb128 0x3a
+	.uleb128 0xb
+	.uleb128 0x3b
+	.uleb128 0xb
+	.uleb128 0x39
+	.uleb128 0xb
+	.uleb128 0x11
+	.uleb128 0x1
+	.uleb128 0x12
+	.uleb128 0x7
+	.uleb128 0x40
+	.uleb128 0x18
+	.uleb128 0x7c
+	.uleb128 0x19
+	.byte	0
+	.byte	0
+	.uleb128 0x19
+	.uleb128 0x2e
+	.byte	0x1
+	.uleb128 0x3
+	.uleb128 0xe
+	.uleb128 0x3a
+	.uleb128 0xb
+	.uleb128 0x3b
+	.uleb128 0xb
+	.uleb128 0x39
+	.uleb128 0xb
+	.uleb128 0x11
+	.uleb128 0x1
+	.uleb128 0x12
+	.uleb128 0x7
+	.uleb128 0x40
+	.uleb128 0x18
+	.uleb128 0x7c
+	.uleb128 0x19
+	.uleb128 0x1
+	.uleb128 0x13
+	.byte	0
+	.byte	0
+	.uleb128 0x1a
+	.uleb128 0x2e
+	.byte	0x1
+	.uleb128 0x3
+	.uleb128 0xe
+	.uleb128 0x3a
+	.uleb128 0xb
+	.uleb128 0x3b
+	.uleb128 0xb
+	.uleb128 0x39
+	.uleb128 0xb
+	.uleb128 0x27
+	.uleb128 0x19
+	.uleb128 0x49
+	.uleb128 0x13
+	.uleb128 0x11
+	.uleb128 0x1
+	.uleb128 0x12
+	.uleb128 0x7
+	.uleb128 0x40
+	.uleb128 0x18
+	.uleb128 0x7c
+	.uleb128 0x19
+	.uleb128 0x1
+	.uleb128 0x13
+	.byte	0
+	.byte	0
+	.uleb128 0x1b
+	.uleb128 0xb
+	.byte	0x1
+	.uleb128 0x11
+	.uleb128 0x1
+	.uleb128 0x12
+	.uleb128 0x7
+	.byte	0
+	.byte	0
+	.uleb128 0x1c
+	.uleb128 0x2e
+	.byte	0
+	.uleb128 0x3f
+	.uleb128 0x19
+	.uleb128 0x3
+	.uleb128 0xe
+	.uleb128 0x3a
+	.uleb128 0xb
+	.uleb128 0x3b
+	.uleb128 0xb
+	.uleb128 0x39
+	.uleb128 0xb
+	.uleb128 0x11
+	.uleb128 0x1
+	.uleb128 0x12
+	.uleb128 0x7
+	.uleb128 0x40
+	.uleb128 0x18
+	.uleb128 0x7c
+	.uleb128 0x19
+	.byte	0
+	.byte	0
+	.byte	0
+	.section	.debug_aranges,"",@progbits
+	.long	0x2c
+	.value	0x2
+	.long	.Ldebug_info0
+	.byte	0x8
+	.byte	0
+	.value	0
+	.value	0
+	.quad	.Ltext0
+	.quad	.Letext0-.Ltext0
+	.quad	0
+	.quad	0
+	.section	.debug_line,"",@progbits
+.Ldebug_line0:
+	.section	.debug_str,"MS",@progbits,1
+.LASF13:
+	.string	"size_t"
+.LASF35:
+	.string	"arrWrite"
+.LASF23:
+	.string	"memset"
+.LASF14:
+	.string	"String"
+.LASF17:
+	.string	"strFree"
+.LASF20:
+	.string	"strPrintf"
+.LASF21:
+	.string	"xprintf"
+.LASF15:
+	.string	"XPutFun"
+.LASF10:
+	.string	"float"
+.LASF29:
+	.string	"arg1"
+.LASF2:
+	.string	"unsigned char"
+.LASF18:
+	.string	"testIntEqual"
+.LASF26:
+	.string	"strcpy"
+.LASF5:
+	.string	"long unsigned int"
+.LASF3:
+	.string	"short unsigned int"
+.LASF24:
+	.string	"strncpy"
+.LASF27:
+	.string	"showTest"
+.LASF11:
+	.string	"double"
+.LASF33:
+	.string	"testPrintf2"
+.LASF25:
+	.string	"strlen"
+.LASF9:
+	.string	"char"
+.LASF34:
+	.string	"testPrintf1"
+.LASF12:
+	.string	"long long int"
+.LASF19:
+	.string	"testStringEqual"
+.LASF28:
+	.string	"name"
+.LASF30:
+	.string	"arr2"
+.LASF32:
+	.string	"checkPrintfCase"
+.LASF4:
+	.string	"unsigned int"
+.LASF16:
+	.string	"arrptr"
+.LASF31:
+	.string	"GNU C99 12.2.0 -mtune=generic -march=x86-64 -g -O0 -std=c99 -fasynchronous-unwind-tables"
+.LASF7:
+	.string	"short int"
+.LASF8:
+	.string	"long int"
+.LASF36:
+	.string	"printfTest"
+.LASF6:
+	.string	"signed char"
+.LASF22:
+	.string	"sprintf"
+	.section	.debug_line_str,"MS",@progbits,1
+.LASF0:
+	.string	"test/test_printf.c"
+.LASF1:
+	.string	"/repo/aldor/aldor/src"
+	.ident	"GCC: (Debian 12.2.0-14+deb12u1) 12.2.0"
+	.section	.note.GNU-stack,"",@progbits
